@@ -31,6 +31,9 @@ def main : IO Unit := do
     IO.println s!"QROW a template writes a path that starts at `{s}::` (the user's crate or module), not at `::core`"
   for s in Generated.quoteMethods do
     IO.println s!"QROW a template calls `.{s}(..)` in method syntax (first at derive-ex/src/{wh s}): resolved among the traits in scope of the user"
+  for (s, f) in Generated.quoteSelfPaths do
+    if !(s == "Output" && f == "item_type.rs") then
+      IO.println s!"QROW a template in derive-ex/src/{f} writes `Self::{s}`: looked up among the variants and inherent items of the user's type first"
   for s in Generated.quoteSingles do
     if !(litOK s || ["derive_ex"].contains s) then
       IO.println s!"QROW a template consists of the single free identifier `{s}` (first at derive-ex/src/{wh s})"
